@@ -12,6 +12,7 @@
 # (line -> fields, warning) obtained from csv_utils.smart_split for exactly the logical rows the MODEL asks for.
 import importlib
 import itertools
+import os
 import sys
 import lib
 c12tl = importlib.import_module('props.c12tl')
@@ -213,6 +214,9 @@ def gen_byte_cases(ctx):
 
 def run(ctx):
     ctx.exhaustive = True
+    if os.environ.get('VERIF_C12_PART') == 'tl':       # debugging aid: only the text-layer part (4)
+        ctx.rule = 'text-layer part only (VERIF_C12_PART=tl)'
+        return c12tl.run(ctx, sys.modules[__name__])
     lens = ('4', '5') if ctx.tier == 'quick' else ('6', '7')
     ctx.rule = ('every text over {a " , LF CR # space} up to length %s (all of them) and a sample of length %s, each on ALL 2^(n-1) partitions x chunk sizes '
                 '{1,2,n+1} x policies {simple, quoted, quoted_rfc, monocolumn%s} x comment prefix {None,#} x header {F,T}; token texts with WITH-modifiers and '
